@@ -262,7 +262,10 @@ def check(run, repo):
         'atoms) for EVERY key / pair / triple, and the algebraic relations of the property are '
         'decided exactly (shape: num*U[final]/U[initial]; affine temperature maps composed as '
         'Fractions; helper inverses as rational functions; one and the same map for the argument witnesses 1, -7/3, '
-        '1e-30 and 1e30 and the number zero; float and integer arrays with elements of either sign element by '
+        '1e-30 and 1e30, the number zero and - whenever the interpretation compares the argument or an element of an '
+        'array argument with a constant - for one value inside every interval these constants cut the line into and for '
+        'the constants themselves; every cross-type pair refused with a ValueError (or a subclass of it); float and '
+        'integer arrays with elements of either sign element by '
         'element, the caller\'s array left unmodified, nothing remembered between calls) or within twice the summed '
         'literal roundings (derived entries and constants; two spellings of one quantity through different table '
         'entries are compared on the folded values).')
@@ -564,7 +567,7 @@ def check(run, repo):
                     break
                 tried.update(Fr(w_) for w_ in pts)
                 while len(pts) % 3:
-                    pts.append(pts[-1])
+                    pts.append(pts[-1] + 1)         # any further number: the elements stay distinct
                 for j_ in range(0, len(pts), 3):
                     array_case(kind, names, pts[j_:j_ + 3], a, b,
                                '%s with elements (%s)' % (key, ', '.join(wtxt(w_) for w_ in pts[j_:j_ + 3])))
@@ -1007,7 +1010,7 @@ def helpers(run, repo, I, m, values, same):
         if pts and len(followed) < 200:
             followed.update((kind, name, Fr(w_)) for w_ in pts)
             if len(pts) % 2:
-                pts.append(pts[-1])
+                pts.append(pts[-1] + 1)         # any further number: the elements stay distinct
             for j_ in range(0, len(pts), 2):
                 cases.append((kind, names, tuple(pts[j_:j_ + 2]), name,
                               ' with elements (%s)' % ', '.join('%g' % float(w_) for w_ in pts[j_:j_ + 2])))
@@ -1210,7 +1213,9 @@ def elements(run, repo, m, tables):
         if not all(k in tab for k in comp):
             continue
         d = DictV()
-        d.d = {comp[0]: n1, comp[1]: n2, comp[2]: n3}
+        for k_, n_ in zip(comp, (n1, n2, n3)):
+            # keys as the interpreter itself holds them (an atomic number is a number like any other)
+            d.d[d.nkey(C(k_) if isinstance(k_, int) else k_)] = n_
         r = I.call_function(pm, fn, [d], {}, name='pmutt.get_molecular_weight')
         want = C(tab[comp[0]]) * n1 + C(tab[comp[1]]) * n2 + C(tab[comp[2]]) * n3
         run.check(isinstance(r, Rat) and r.eq(want), 'REF.molweight', 'pmutt.get_molecular_weight',
@@ -1346,6 +1351,14 @@ MUTANTS = [
      'expect': ('SHAPE.convert', 'convert_unit'),
      'edits': [(K_, _LIN, "        if isinstance(num, np.ndarray):\n            result = num.copy()\n"
                 "            result *= unit_dict[final] / unit_dict[initial]\n            return result\n" + _LIN)]},
+    {'name': 'float arrays scaled in place through astype(float, copy=False)', 'expect': ('EFFECT.argument', 'convert_unit'),
+     'edits': [(K_, _LIN, "        if isinstance(num, np.ndarray):\n            result = num.astype(float, copy=False)\n"
+                "            result *= unit_dict[final] / unit_dict[initial]\n            return result\n" + _LIN)]},
+    {'name': 'the Celsius offset added as an array shaped like the (integer) argument',
+     'expect': ('TYPE.int-buffer', 'convert_unit'),
+     'edits': [(K_, "                result = num + 273.15\n", "                if isinstance(num, np.ndarray):\n"
+                "                    result = num + np.full_like(num, 273.15)\n                else:\n"
+                "                    result = num + 273.15\n")]},
     {'name': 'molar energies passed through to the plain energy unit', 'expect': ('ORDER.refuse', 'convert_unit'),
      'edits': [(K_, _TYPES, "    molar = ('J/mol', 'kJ/mol', 'cal/mol', 'kcal/mol')\n"
                 "    if (initial in molar and initial[:-4] == final) or (final in molar and final[:-4] == initial):\n"
@@ -1367,8 +1380,8 @@ MUTANTS = [
                 "            raise ValueError('below absolute zero')\n" + _TEMP)]},
     {'name': 'numbers between 1e-40 and 1e-35 flushed to zero', 'expect': ('SHAPE.convert', 'convert_unit'),
      'edits': [(K_, _LIN, "        if 1.e-40 < num < 1.e-35:\n            num = 0.\n" + _LIN)]},
-    {'name': 'helper flushes wavenumbers below 1e-40 to zero', 'expect': ('SHAPE.helper', 'wavenumber_to_temp'),
-     'edits': [(K_, _W2T, "    if wavenumber < 1.e-40:\n        return 0.\n" + _W2T)]},
+    {'name': 'helper flushes wavenumbers between 1e-40 and 1e-35 to zero', 'expect': ('SHAPE.helper', 'wavenumber_to_temp'),
+     'edits': [(K_, _W2T, "    if 1.e-40 < wavenumber < 1.e-35:\n        return 0.\n" + _W2T)]},
     {'name': 'helper flushes small entries of an array to zero', 'expect': ('BRANCH-TWIN.helper', 'wavenumber_to_temp'),
      'edits': [(K_, _W2T, "    if isinstance(wavenumber, np.ndarray):\n        result = " + _W2T.strip()[7:] + "\n"
                 "        result[wavenumber < 1.e-3] = 0.\n        return result\n" + _W2T)]},
@@ -1417,6 +1430,18 @@ EQUIV = [
      'edits': [(K_, "    unit_dict = {\n        'J': 1.,\n", "    unit_dict = {'factors': {\n        'J': 1.,\n"),
                (K_, "        'psi': 0.000145038\n    }\n", "        'psi': 0.000145038\n    }}\n"),
                (K_, _LIN, "        result = num * unit_dict['factors'][final] / unit_dict['factors'][initial]")]},
+    {'name': 'negative numbers converted through their magnitude (a comparison of the argument that changes nothing)',
+     'edits': [(K_, _LIN, "        if not isinstance(num, np.ndarray) and num < 0.:\n"
+                "            return -((-num) * unit_dict[final] / unit_dict[initial])\n" + _LIN)]},
+    {'name': 'unknown units found by a membership test instead of try/except KeyError',
+     'edits': [(K_, "    try:\n        initial_type = type_dict[initial]\n    except KeyError:\n", "    if initial not in type_dict:\n"),
+               (K_, "    try:\n        final_type = type_dict[final]\n    except KeyError:\n", "    if final not in type_dict:\n"),
+               (K_, _TYPES, "    initial_type = type_dict[initial]\n    final_type = type_dict[final]\n" + _TYPES)]},
+    {'name': 'the cube root in the Debye/Einstein helpers taken with np.cbrt',
+     'edits': [(K_, "    return (np.pi / 6.)**(1. / 3.) * debye_temperature",
+                "    return float(np.cbrt(np.pi / 6.)) * debye_temperature"),
+               (K_, "    return einstein_temperature / (np.pi / 6.)**(1. / 3.)",
+                "    return einstein_temperature / float(np.cbrt(np.pi / 6.))")]},
     {'name': 'kilo rows of kb derived from the base rows',
      'edits': [(K_, "        'kJ/K': 1.38064852e-26,\n", ""), (K_, "        'kcal/K': 3.2998292e-27,\n", ""),
                (K_, "    try:\n        return kb_dict[units]", "    for unit in ('J/K', 'cal/K'):\n"
